@@ -60,6 +60,7 @@ def make_family():
     m["right"] = {"excludes": "left right", "attrs": {"n": {"default": 0}}}
     m["lock"] = {"excludes": "big"}              # blocks `big` without being excluded by it (asymmetric)
     n["note"] = {"content": "inline*", "group": "block", "marks": "small1 small2 em lock"}   # allows small1 but not big
+    n["caption"] = {"content": "inline+", "group": "block"}            # a textblock whose content automaton has two states
     out.append(SchemaInfo(Schema({"nodes": n, "marks": m}), "marks-x"))
     return out
 
@@ -137,7 +138,7 @@ def random_spec(rng):
         spec = {"inline": True, "group": "inline"}
         if rng.random() < 0.4:
             spec["attrs"] = {"v": {}} if rng.random() < 0.5 else {"v": {"default": "x"}}
-        if rng.random() < 0.25:
+        if rng.random() < 0.35:
             spec["content"] = "text*"       # inline node with content (non-atom unless flagged)
             if rng.random() < 0.5:
                 spec["atom"] = True
@@ -147,7 +148,9 @@ def random_spec(rng):
     order = []
     for i in range(n_tb):
         name = "tb%d" % i
-        c = rng.choice(["inline*", "text*", "inline*", "(text | il0)*" if n_il else "inline*", "text+" if rng.random() < 0.2 else "inline*"])
+        c = rng.choice(["inline*", "text*", "inline*", "(text | il0)*" if n_il else "inline*", "text+" if rng.random() < 0.2 else "inline*",
+                        # inline containers only (text fits only inside one of them)
+                        ("il0*" if rng.random() < 0.5 else "(il0 | il1)+" if n_il > 1 else "il0+") if n_il and rng.random() < 0.6 else "inline*"])
         spec = {"content": c, "group": "block" + (" g%d" % (i % 2))}
         me = mark_expr()
         if me is not None:
